@@ -66,8 +66,12 @@ type gateSink struct {
 	release chan struct{}
 }
 
-func (g *gateSink) Write(p []byte) (int, error) { g.entered <- "write"; <-g.release; return len(p), nil }
-func (g *gateSink) Sync() error                 { g.entered <- "sync"; <-g.release; return nil }
+func (g *gateSink) Write(p []byte) (int, error) {
+	g.entered <- "write"
+	<-g.release
+	return len(p), nil
+}
+func (g *gateSink) Sync() error { g.entered <- "sync"; <-g.release; return nil }
 
 type plainWriter struct{ s *scriptSink }
 
